@@ -353,3 +353,50 @@ let () =
         | _ -> PFlush) ops in
       if check_model data (buffered = "1") (big = "1") (ints fills) (ints reads) pops then "spec-ok" else "SPEC-VIOLATED"
     | _ -> "badargs")
+
+(* wbitw <big 0/1> <sink script a|f<k>:<tag>,...|-> <rest a|f<k>:<tag>> op... ;
+   op = b:<v>:<nb> | t:<v>:<nb> | p:<v> | r:<hex|-> | c:<v>:<nb> | d:<v>:<nb> | f | u :
+   implementation-level model of prefix.Writer (Prefix/WriterImpl.v) over a scripted sink.
+   Observation: per operation outcome:Offset:BitsWritten:<sink calls>/<bytes accepted during
+   the operation>, then the final sink contents. *)
+let () =
+  register "wbitw" (fun args -> match args with
+    | big :: script :: rest :: ops ->
+      let beh s =
+        if s = "a" then SAccept
+        else match colon (String.sub s 1 (String.length s - 1)) with
+          | [k; tag] -> SFail (nat_of_int (int_of_string k), n_of_string tag)
+          | _ -> failwith "sink behaviour" in
+      let script = if script = "-" then [] else List.map beh (String.split_on_char ',' script) in
+      let p0 = Model.winit script (beh rest) (big = "1") in
+      let wops = List.map (fun o -> match colon o with
+        | ["b"; v; nb] -> BWBits (n_of_string v, n_of_string nb)
+        | ["t"; v; nb] -> BWTryBits (n_of_string v, n_of_string nb)
+        | ["c"; v; nb] -> BWChunk (n_of_string v, n_of_string nb)
+        | ["d"; v; nb] -> BWTryChunk (n_of_string v, n_of_string nb)
+        | ["p"; v] -> BWPads (n_of_string v)
+        | ["r"; h] -> BWRaw (bytes_of_hex h)
+        | ["f"] -> BWFlush
+        | ["u"] -> BWPush
+        | _ -> failwith "wbitw op") ops in
+      let (obs, pfin) = bwrun p0 wops in
+      let en = oerr_name in
+      let seen = ref 0 in
+      let show_view vw =
+        let chunks = vw.v_sink.k_chunks in      (* newest first *)
+        let total = List.length chunks in
+        let fresh = total - !seen in
+        seen := total;
+        let rec take n l acc = if n = 0 then acc else match l with [] -> acc | c :: r -> take (n - 1) r (c :: acc) in
+        let delta = List.concat (take fresh chunks []) in
+        Printf.sprintf "%s:%s:%d/%s" (z_to_string vw.v_offset) (z_to_string vw.v_bits) fresh (hex_of_bytes delta) in
+      let show = function
+        | OWBits (e, vw) -> Printf.sprintf "b:%s:%s" (en e) (show_view vw)
+        | OWTry (ok, vw) -> Printf.sprintf "t:%d:%s" (if ok then 1 else 0) (show_view vw)
+        | OWPads vw -> Printf.sprintf "p:%s" (show_view vw)
+        | OWRaw (n, e, vw) -> Printf.sprintf "r:%d:%s:%s" (int_of_nat n) (en e) (show_view vw)
+        | OWFlush (ret, e, vw) -> Printf.sprintf "f:%s:%s:%s" (z_to_string ret) (en e) (show_view vw)
+        | OWPush (n, e, vw) -> Printf.sprintf "u:%s:%s:%s" (n_to_string n) (en e) (show_view vw) in
+      let parts = List.map show obs in
+      String.concat "," parts ^ " " ^ hex_of_bytes (wsink_data pfin.bw_sink)
+    | _ -> "badargs")
